@@ -258,6 +258,10 @@ fn run_cont(a: &Args, limits: &Limits, symbolic: bool, initial: &[(String, i64)]
                 let (nq, uv) = (a.num("len", 4) as usize, a.flag("use_value"));
                 (explore(limits, seed, symbolic, initial, &mut || cont::dominance_body(seed, nq, uv)), format!("{} queries + 2 probes, use_value={}", nq, uv))
             }
+            "domorder" => {
+                let (nq, uv) = (a.num("len", 3) as usize, a.flag("use_value"));
+                (explore(limits, seed, symbolic, initial, &mut || cont::dominance_order_body(seed, nq, uv)), format!("{} states recorded forwards / backwards, 2 probes, use_value={}", nq, uv))
+            }
             #[cfg(feature = "sched")]
             "cacheconc" => {
                 let (nt, nops, pre) = (a.num("threads", 2) as usize, a.num("ops", 1) as usize, a.num("preempt", 2) as u32);
@@ -325,7 +329,7 @@ fn main() {
                 }
             }
         }
-        "fringe" | "cache" | "dominance" | "cacheconc" | "domconc" => run_cont(&a, &limits, symbolic, &initial),
+        "fringe" | "cache" | "dominance" | "domorder" | "cacheconc" | "domconc" => run_cont(&a, &limits, symbolic, &initial),
         #[cfg(feature = "sched")]
         "par" => run_par(&a, &limits, symbolic, &initial),
         "find" => {
